@@ -4,6 +4,7 @@ import Demeter.Actuator
 import Demeter.Actuator.Causal
 import Demeter.Actuator.Hooks
 import Demeter.Actuator.Finalize
+import Demeter.Actuator.Strict
 namespace Demeter.Drv
 open Demeter Demeter.Core Lean
 
@@ -162,7 +163,8 @@ def tblU (j : Json) (k : String) : Except String (Nat → Nat → List String) :
 
 def parseCfg (j : Json) : Except String Cfg := do
   let ms ← jArr j "markets"
-  let markets ← ms.toList.mapM fun m => do pure (⟨← jIntArr m "idx", ← jBool m "open", (match jOpt m "sparse" with | some (.bool b) => b | _ => false)⟩ : MarketCfg)
+  let markets ← ms.toList.mapM fun m => do pure (⟨← jIntArr m "idx", ← jBool m "open", (match jOpt m "sparse" with | some (.bool b) => b | _ => false),
+                                                   (match jOpt m "strict" with | some (.bool b) => b | _ => false)⟩ : MarketCfg)
   pure ⟨markets, ← jIntArr j "prices", ← jInt j "delta", ← jBool j "resample"⟩
 
 def runH : JHandler := fun j => do
@@ -321,17 +323,19 @@ def runGH : JHandler := fun j => do
   let trigs := install (ok.map fun (kw, _, k) => (kw, k))
   let g ← parseGScript ((jOpt j "script").getD (Json.mkObj []))
   let fin ← parseFin ((jOpt j "script").getD (Json.mkObj []))
-  let first := match fin with
-    | none => resultJ made cfg (actuatorRunG cfg trigs g)
-    | some f => fullJ made cfg (actuatorRunFull cfg trigs g f)
+  let answer (trigs : List Trig) (g : GScript) (fin : Option FinScript) : Json :=
+    -- a strict market without a row ends the run before `finalize()`; otherwise `runStrict` is `runG`
+    let rs := if cfg.markets.any (·.strict) then actuatorRunStrict cfg trigs g else actuatorRunG cfg trigs g
+    match fin with
+    | none => resultJ made cfg rs
+    | some f => if rs.err.isSome then resultJ made cfg rs else fullJ made cfg (actuatorRunFull cfg trigs g f)
+  let first := answer trigs g fin
   match jOpt j "then" with
   | none => pure first
   | some scj2 =>
     let g2 ← parseGScript scj2
     let fin2 ← parseFin scj2
-    let second := match fin2 with
-      | none => resultJ made cfg (actuatorRunG cfg (trigsAfterRunG cfg trigs g) g2)
-      | some f => fullJ made cfg (actuatorRunFull cfg (trigsAfterRunG cfg trigs g) g2 f)
+    let second := answer (trigsAfterRunG cfg trigs g) g2 fin2
     pure (first.setObjVal! "second" second)
 
 /-- the trigger loop alone with actions that change the list (`trigRunD`), and the same bars through the cursor reading (`cursorLoop`) -/
@@ -376,7 +380,14 @@ def viewsH : JHandler := fun j => do
 end CoreDrv
 
 def coreHandlers : List (String × Handler) := []
+/-- which market classes raise `KeyError` from `set_market_status` on a bar without a row, as read from the source -/
+def strictFlagsH : JHandler := fun _ => do
+  pure <| Json.mkObj [("UniLpMarket", .bool MarketClass.uni.strict), ("AaveV3Market", .bool MarketClass.aave.strict),
+    ("SqueethMarket", .bool MarketClass.squeeth.strict), ("GmxMarket", .bool MarketClass.gmx.strict),
+    ("GmxV2Market", .bool MarketClass.gmxV2.strict), ("DeribitOptionMarket", .bool MarketClass.deribit.strict)]
+
 def coreJHandlers : List (String × JHandler) := [
+  ("strict_flags", strictFlagsH),
   ("trig_run", CoreDrv.trigRunH),
   ("run", CoreDrv.runH),
   ("run_g", CoreDrv.runGH),
